@@ -137,3 +137,42 @@ func HiddenAncestor(rel string) bool {
 	}
 	return false
 }
+
+// Change is one structured difference between two snapshots.
+type Change struct {
+	Path string
+	Kind string // new missing changed
+	Old  Entry
+	New  Entry
+}
+
+func (c Change) String() string {
+	switch c.Kind {
+	case "new":
+		return fmt.Sprintf("new %s (%s)", c.Path, c.New)
+	case "missing":
+		return fmt.Sprintf("missing %s (was %s)", c.Path, c.Old)
+	}
+	return fmt.Sprintf("changed %s: %s -> %s", c.Path, c.Old, c.New)
+}
+
+// Changes lists how b differs from a, sorted by path.
+func Changes(a, b Snap) []Change {
+	var out []Change
+	for k, ea := range a {
+		eb, ok := b[k]
+		switch {
+		case !ok:
+			out = append(out, Change{k, "missing", ea, Entry{}})
+		case !sameEntry(ea, eb):
+			out = append(out, Change{k, "changed", ea, eb})
+		}
+	}
+	for k, eb := range b {
+		if _, ok := a[k]; !ok {
+			out = append(out, Change{k, "new", Entry{}, eb})
+		}
+	}
+	sort.Slice(out, func(i, j int) bool { return out[i].Path < out[j].Path })
+	return out
+}
